@@ -457,7 +457,7 @@ package dnsmsg
 
 //@ func UnpackMsg(msg []byte) (m *Msg, err error)
 //@   props C01 C02 C20
-//@   modifies *
+//@   modifies pkgheaps(dnsmsg), bytes()
 //@   ensures err == nil ==> m != nil && fresh(m) && wfMsg(m)
 //@   ensures err != nil ==> m == nil
 //@   ensures [C02:header] err == nil ==> len(msg) >= 12 && m.ID == BE16(msg, 0) && m.Response == ((BE16(msg, 2) & 0x8000) != 0)
